@@ -55,6 +55,18 @@ PROPS = {
                      "the completeness direction (a program satisfying all rules is accepted) needs the whole pipeline",
                      "the join with C20 (every element is visited) is stated, not mechanised: per-element dispatch contracts only"],
     ),
+    "C09": dict(
+        units=["locations"],
+        claim="The cursor arithmetic of the preprocessor lexer and of the Slice lexer (advance_buffer, advance_to_end_of_line, skip_*; real text) "
+              "is verified against `cursor == advance_all(start, consumed characters)`: rows and columns start at 1 and count CHARACTERS (not "
+              "bytes), '\\n' moves to column 1 of the next row, nothing is consumed at end of buffer, byte positions advance by len_utf8, no "
+              "overflow, loops terminate; in the Slice lexer the start is the source block's ORIGINAL location (what keeps surviving text in place).",
+        trusted=["R10 PeekChars / PeekCharIndices shims", "str_facts axioms: a str has fewer than usize::MAX/2 characters/bytes; UTF-8 length of a prefix <= whole; 1 <= len_utf8 <= 4",
+                 "Slice lexer: the block start has col >= 1 and start + content length does not overflow (established by the preprocessor lexer; part of wf, assumed at construction)"],
+        not_claimed=["TIGHTNESS of spans (the @L/@R placement in the LALRPOP grammars and the generated parsers) - the three span-edge defects named in the property live there",
+                     "Location::is_within and Span + Span (derived Ord; no vstd spec for Ordering comparison)", "the comments lexer's cursor, create_doc_comment's `col - 3`, get_snippet / get_highlight (snippet rendering, tabs, CRLF)",
+                     "read_identifier / create_source_block_token (byte-range str slicing has no Verus support)"],
+    ),
     "C06": dict(
         units=["preproc"],
         claim="Term::evaluate, Expression::evaluate, Conditional::evaluate and process_nodes (slicec/src/parsers/preprocessor/grammar.rs, "
@@ -166,6 +178,10 @@ NOT_APPLICABLE = {
 }
 
 MANIFEST_TEXT = {
+    "C09": dict(
+        level="Proof (Verus) of the CURSOR ARITHMETIC only: for the preprocessor lexer and the Slice lexer, every cursor-moving function preserves the representation invariant `cursor == advance_all(start location, characters consumed so far)` (columns count characters, rows/cols from 1, newline resets the column) and `position == UTF-8 byte length of the consumed characters`; no overflow; termination. Span tightness (grammar @L/@R placement), span algebra and snippet rendering are not claimed.",
+        design_ref="DESIGN.md section 7, C09", technique="Verus representation invariant over the lexer state + ghost `consumed` view; recursive spec of location advancement",
+        note="Partial claim (stated). Assumed: peekable shims, string length bounds, block start bounds."),
     "C04": dict(
         level="Proof (Verus) for a stated SUBSET of the rule catalogue: 12 closure-free rule functions + the primitive bounds table are verified against rule predicates written from the property - `appended(old, new, n_rule(element), k_rule)`: exactly one diagnostic of the rule's own code per violation, nothing else touched; validate_struct/enum/type_alias and ValidatorVisitor::visit_struct/enum/type_alias reject every element violating one of them. Rules implemented with closures/adapters (value ranges, uniqueness, stream, dictionary keys, shadowing, attributes) are trusted and named in the evidence.",
         design_ref="DESIGN.md section 7, C04", technique="Verus contracts on extracted real functions; loop invariants over prophetic iterator views; counting spec functions; sequencing lemmas",
